@@ -584,6 +584,26 @@ def run(tier, seed, workers):
         'samples': samples[:8],
         'failures_total': len(failures),
         'failures_by_class': by_class,
-        'failures': failures[:400],
+        'failures': keep_failures(failures),
     })
     return out
+
+
+def keep_failures(failures, cap=400, per_class=60):
+    """At most `cap` entries: the `per_class` smallest of every (contract, class), then the smallest overall."""
+    picked, seen = [], set()
+    groups = {}
+    for f in failures:
+        groups.setdefault((f['contract'], f.get('class')), []).append(f)
+    for g in groups.values():
+        for f in g[:per_class]:
+            if f['key'] not in seen and len(picked) < cap:
+                seen.add(f['key'])
+                picked.append(f)
+    for f in failures:
+        if len(picked) >= cap:
+            break
+        if f['key'] not in seen:
+            seen.add(f['key'])
+            picked.append(f)
+    return sorted(picked, key=lambda f: (len(f['input']['text']), f['input']['text'], f['key']))
